@@ -65,6 +65,11 @@ fn main() {
         let text = std::fs::read_to_string(&file).expect("replay file");
         // a replay file is JSON with a "replay" field holding the s-expression, or the bare line
         let line = extract_replay(&text);
+        if line.starts_with("(pgmcase") || (prop == "pgm" && line.starts_with("(pgcase")) {
+            pgm::replay(&line, &mut o);
+            o.write(&outdir);
+            return;
+        }
         if line.starts_with("(pgcase") {
             pg::replay(&line, "", &mut o);
             o.write(&outdir);
